@@ -49,6 +49,36 @@ PROPS = {
 
 DEFAULTS = dict(shards=(4, 16), deadline=(300, 1800), race=False, fuzz=None)
 
+# native fuzz campaigns (thorough tier only): target, seconds
+FUZZ = {"C01": ("FuzzC01", 90), "C04": ("FuzzC04", 60), "C05": ("FuzzC05", 45), "C07": ("FuzzC07", 45), "C12": ("FuzzC12", 60),
+        "C16": ("FuzzC16", 45), "C17": ("FuzzC17", 60)}
+
+
+def run_fuzz(prop, binp, out_dir, exclude, seed, tier):
+    """Runs the native fuzz campaign of a property in a scratch directory; returns (failure files, executions note)."""
+    if prop not in FUZZ or tier != "thorough":
+        return [], None
+    target, secs = FUZZ[prop]
+    secs = max(5, int(secs * float(os.environ.get("VERIF_BUDGET", "1"))))
+    wd = os.path.join(out_dir, "fuzz")
+    os.makedirs(os.path.join(wd, "cache"), exist_ok=True)
+    e = env_base()
+    e.update(VERIF_TIER=tier, VERIF_SEED=seed, VERIF_SHARD="99", VERIF_SHARDS="1", VERIF_OUT=out_dir, VERIF_MODE="fuzz",
+             VERIF_EXCLUDE=",".join(exclude), VERIF_TMP=os.path.join(out_dir, "tmp"))
+    cmd = [binp, "-test.run", "^$", "-test.fuzz", "^" + target + "$", "-test.fuzztime", "%ds" % secs,
+           "-test.fuzzcachedir", os.path.join(wd, "cache"), "-test.timeout", "0"]
+    try:
+        r = subprocess.run(cmd, cwd=wd, env=e, stdout=subprocess.PIPE, stderr=subprocess.STDOUT, text=True, errors="replace", timeout=secs + 300)
+        out = r.stdout
+    except subprocess.TimeoutExpired as ex:
+        return [], "fuzz campaign did not finish"
+    m = re.findall(r"execs: (\d+)", out)
+    note = "native fuzz %s %ds: %s execs" % (target, secs, m[-1] if m else "?")
+    fails = sorted(f for f in os.listdir(out_dir) if f.startswith("fail-") and f.endswith("-99.json"))
+    if r.returncode != 0 and not fails:
+        note += "; fuzz process exited %d without a failure file: %s" % (r.returncode, out[-600:])
+    return fails, note
+
 
 def env_base():
     e = dict(os.environ)
@@ -307,6 +337,7 @@ def check(prop, tier, replay=None):
                 p.kill()
                 p.wait()
             logf.close()
+        fuzz_fails, fuzz_note = run_fuzz(prop, binp, out_dir, exclude, seed, tier) if not timed_out else ([], None)
         fail_files = sorted(f for f in os.listdir(out_dir) if f.startswith("fail-"))
         for i, p, _ in procs:
             if p.returncode != 0:
@@ -328,6 +359,8 @@ def check(prop, tier, replay=None):
 
         ev = merge_evidence(prop, tier, seed, out_dir, time.time() - t0, len(violations))
         ev["shards"] = nshards
+        if fuzz_note:
+            ev["notes"].append(fuzz_note)
         # generator health: required classes
         health = rule_text(prop).get("required_classes", {})
         for cls, floor in health.items():
